@@ -89,10 +89,12 @@ func (x *world) checkC01w(label string) {
 	spent := map[wire.OutPoint]bool{}
 	highest := int32(-1)
 	var sync waddrmgr.BlockStamp
+	var all []wtxmgr.TxDetails
 	err := walletdb.View(x.w.Database(), func(tx walletdb.ReadTx) error {
 		ns := tx.ReadBucket(wtxmgrNS)
 		sync = x.w.Manager.SyncedTo()
 		return x.w.TxStore.RangeTransactions(ns, 0, -1, func(ds []wtxmgr.TxDetails) (bool, error) {
+			all = append(all, ds...)
 			for i := range ds {
 				d := &ds[i]
 				if d.Block.Height > highest {
@@ -125,6 +127,18 @@ func (x *world) checkC01w(label string) {
 	}
 	if sync.Height < highest {
 		env.Count("probe.c01w-sync-below-highest-known-block")
+		return
+	}
+	if found, byClient, what := x.spenderAnnouncedBeforeParent(all); found {
+		if byClient {
+			// not a sequence of events a validating node could emit: see
+			// spenderAnnouncedBeforeParent
+			env.Count("observed.spender-confirmation-announced-before-its-parent's")
+			env.Logf("outside the statement: %s", what)
+			x.violated = true
+			return
+		}
+		x.fail("c01w:credit-unspent-though-a-confirmed-transaction-spends-it", "%s: %s", label, what)
 		return
 	}
 	leased := map[wire.OutPoint]bool{}
